@@ -41,9 +41,12 @@ MANIFEST = dict(
          'fresh destination, raising body, raising rebuild phase) are run under file-system interposition with a kill '
          '(os._exit in a forked child) before every operation, an OSError at every operation, all interleavings / all '
          'pairs of operation boundaries of two writers and an OSError at every operation of several schedules; traces, '
-         'directories, rename and raised/returned outcomes are compared with the tree machine of the generated program.',
+         'directories, rename and raised/returned outcomes are compared with the tree machine of the generated program. '
+         'The kernel interpreter and the transliteration are themselves tied to CPython: fixed and random __exit__ bodies '
+         'of the subset run against mock objects under result oracles and must perform the same calls and end the same '
+         'way as walk (exit_tree ..).',
     note='Trusted: Coq kernel + vm_compute, translate/c12_atomic.py (transliteration only: the symbolic execution is in '
-         'the kernel and tied by the executed correspondence), the interposer in checks/c12.py (FileIO subclass + patched '
+         'the kernel; both are tied by the executed correspondences, the CPython one by sampling), the interposer in checks/c12.py (FileIO subclass + patched '
          'io.open/os.*), POSIX rename atomicity and O_EXCL (modelled, not verified), page cache surviving a process kill '
          '(no power-loss durability claimed). Contents are abstract write tokens in the model; the harness maps them to '
          'bytes. An OSError raised by the cleanup unlink itself is excluded from "no temp file left" (no implementation '
@@ -1594,7 +1597,10 @@ def run(ck: Ck) -> None:
                'one with a shared destination) are run under EVERY interleaving (DFS over schedules) or at every pair of '
                'operation boundaries (A^k1 B^k2 and B^k2 A^k1), and with one OSError at every operation of 3-6 schedules. '
                'A case is distinct by (scenario kind, buffer size, kill/fault index), by the full schedule, or by '
-               '(pair, schedule, fault index); all are non-trivial (each changes where the protocol is interrupted).')
+               '(pair, schedule, fault index); all are non-trivial (each changes where the protocol is interrupted). '
+               'Interpreter tie: program = random __exit__ body of the translator subset (2-5 top-level statements, depth <= 3, '
+               '<= 5 file-system calls) x {body returned, body raised} x 10 result oracles; distinct by (program, exc, oracle), '
+               'non-trivial when at least one call is performed.')
     ck.trusted.append('hand-written machines SM/AtomicWriter.v (flags) and SM/AtomicExit.v (decision trees + interpreter of '
                       'the generated __exit__ program), tied by the proved refinement, by the kernel-computed obligations on '
                       'the generated program and by the executed crash/fault/interleaving correspondence on every run')
